@@ -429,12 +429,177 @@ pub fn node(args: &Args) {
         "fee_refused": n_fee_ref, "restarts": n_restart, "monitor_failures": monitor_failures}));
 }
 
+/// the delegate of a VelocityApprover: "the user".  In blocking mode a prompt waits for the answer
+/// the harness gives (at most two seconds), otherwise it is declined at once.
+struct PromptShared {
+    block: std::sync::atomic::AtomicBool,
+    prompts: std::sync::atomic::AtomicU64,
+    called: std::sync::Mutex<std::sync::mpsc::Sender<()>>,
+    answer: std::sync::Mutex<std::sync::mpsc::Receiver<bool>>,
+}
+struct PromptDelegate(std::sync::Arc<PromptShared>);
+
+impl lightning_signer::SendSync for PromptDelegate {}
+
+impl PromptDelegate {
+    fn prompt(&self) -> bool {
+        use std::sync::atomic::Ordering::SeqCst;
+        self.0.prompts.fetch_add(1, SeqCst);
+        if !self.0.block.load(SeqCst) {
+            return false;
+        }
+        let _ = self.0.called.lock().unwrap().send(());
+        self.0.answer.lock().unwrap().recv_timeout(Duration::from_secs(2)).unwrap_or(false)
+    }
+}
+
+impl vls_protocol_signer::approver::Approve for PromptDelegate {
+    fn approve_invoice(&self, _invoice: &lightning_signer::invoice::Invoice) -> bool {
+        self.prompt()
+    }
+    fn approve_keysend(&self, _payment_hash: PaymentHash, _amount_msat: u64) -> bool {
+        self.prompt()
+    }
+    fn approve_onchain(
+        &self,
+        _tx: &lightning_signer::bitcoin::Transaction,
+        _prev_outs: &[lightning_signer::bitcoin::TxOut],
+        _unknown_indices: &[usize],
+    ) -> bool {
+        self.prompt()
+    }
+}
+
+/// VelocityApprover (vls-protocol-signer/src/approver.rs): approvals below its limit go through
+/// without asking, the rest are put to the delegate.  Sequential histories against the sliding
+/// window, and the one interleaving that matters: a request is waiting at the delegate while
+/// another one arrives.  What went through WITHOUT a prompt must stay within the limit in every
+/// window (an approval the user gave by hand clears the control and starts a new account).
+pub fn approver(args: &Args) {
+    use std::sync::atomic::Ordering::SeqCst;
+    use std::sync::mpsc::channel;
+    use std::sync::Arc;
+    use vls_protocol_signer::approver::{Approve, VelocityApprover};
+    let mut rng = Rng::new(args.seed ^ 0xa990);
+    let (mut n_auto, mut n_prompted, mut n_overlap) = (0u64, 0u64, 0u64);
+    for case in 0..args.n {
+        let limit = *rng.pick(&[1_000_000u64, 5_000_000, 60_000_000]);
+        let spec = VelocityControlSpec { limit_msat: limit, interval_type: VelocityControlIntervalType::Hourly };
+        let clock = Arc::new(lightning_signer::util::clock::ManualClock::new(Duration::from_secs(1_000_000)));
+        let (called_tx, called_rx) = channel::<()>();
+        let (answer_tx, answer_rx) = channel::<bool>();
+        let shared = Arc::new(PromptShared {
+            block: Default::default(),
+            prompts: Default::default(),
+            called: std::sync::Mutex::new(called_tx),
+            answer: std::sync::Mutex::new(answer_rx),
+        });
+        let app = Arc::new(VelocityApprover::new(clock.clone(), VelocityControl::new(spec), PromptDelegate(shared.clone())));
+        let mut now = 1_000_000u64;
+        // (time, amount) of what went through without a prompt since the last approval given by hand
+        let mut auto_log: Vec<(u64, u64)> = vec![];
+        let mut jops = vec![];
+        let mut violation: Option<String> = None;
+        let mut hctr = 0u8;
+        let keysend = |app: &Arc<VelocityApprover<PromptDelegate>>, hctr: &mut u8, amt: u64| -> (bool, bool) {
+            *hctr = hctr.wrapping_add(1);
+            let before = shared.prompts.load(SeqCst);
+            let ok = app.approve_keysend(PaymentHash([*hctr; 32]), amt);
+            (ok, shared.prompts.load(SeqCst) > before)
+        };
+        let steps = 3 + rng.below(8);
+        for step in 0..steps {
+            now += *rng.pick(&[0u64, 1, 299, 300, 301, 900]);
+            clock.set(Duration::from_secs(now));
+            let overlap = step > 0 && rng.chance(1, 3);
+            if !overlap {
+                let amt = match rng.below(5) {
+                    0 => limit / 2 + 1,
+                    1 => limit / 3,
+                    2 => limit,
+                    _ => rng.below(limit / 2) + 1,
+                };
+                let (ok, prompted) = keysend(&app, &mut hctr, amt);
+                if ok && !prompted {
+                    auto_log.push((now, amt));
+                    n_auto += 1;
+                }
+                if prompted {
+                    n_prompted += 1;
+                }
+                jops.push(json!(["keysend", now, amt, ok, prompted]));
+            } else {
+                // a request that is over the limit waits at the delegate; a second request arrives meanwhile; the
+                // user then declines the first
+                n_overlap += 1;
+                let counted: u64 = auto_log.iter().filter(|(t, _)| now < *t + 3300).map(|(_, a)| *a).sum();
+                let big = limit.saturating_sub(counted) + 1 + rng.below(1000);
+                let small = (limit.saturating_sub(counted) / 2).max(1);
+                // nothing left over from an earlier pair
+                while shared.answer.lock().unwrap().try_recv().is_ok() {}
+                while called_rx.try_recv().is_ok() {}
+                shared.block.store(true, SeqCst);
+                let a1 = app.clone();
+                let h1 = hctr.wrapping_add(1);
+                let sh1 = shared.clone();
+                let t1 = std::thread::spawn(move || {
+                    let before = sh1.prompts.load(SeqCst);
+                    let ok = a1.approve_keysend(PaymentHash([h1; 32]), big);
+                    (ok, sh1.prompts.load(SeqCst) > before)
+                });
+                let reached = called_rx.recv_timeout(Duration::from_secs(2)).is_ok();
+                let a2 = app.clone();
+                let h2 = hctr.wrapping_add(2);
+                hctr = hctr.wrapping_add(2);
+                let (done_tx, done_rx) = channel::<bool>();
+                let sh2 = shared.clone();
+                let t2 = std::thread::spawn(move || {
+                    let before = sh2.prompts.load(SeqCst);
+                    let ok = a2.approve_keysend(PaymentHash([h2; 32]), small);
+                    let prompted = sh2.prompts.load(SeqCst) > before;
+                    let _ = done_tx.send(ok);
+                    (ok, prompted)
+                });
+                // on a tree that holds the control across the prompt the second request waits here
+                let early = done_rx.recv_timeout(Duration::from_millis(150)).ok();
+                // prompts of the second request (if any) are declined at once from here on
+                shared.block.store(false, SeqCst);
+                let _ = answer_tx.send(false);
+                let (ok1, prompted1) = t1.join().unwrap_or((false, true));
+                if ok1 && !prompted1 {
+                    // (it fitted after all: it went through without a prompt and counts)
+                    auto_log.push((now, big));
+                    n_auto += 1;
+                }
+                let (ok2, prompted2) = t2.join().unwrap_or((false, true));
+                if ok2 && !prompted2 {
+                    auto_log.push((now, small));
+                    n_auto += 1;
+                }
+                jops.push(json!(["overlap", now, {"waiting_at_the_delegate": big, "reached_the_delegate": reached, "declined": !ok1,
+                                  "meanwhile": small, "meanwhile_answered_before_the_decision": early.is_some(), "meanwhile_ok": ok2, "meanwhile_prompted": prompted2}]));
+            }
+            // the property itself on the harness's own record
+            if let Some((t0, len, sum)) = window_violation(&auto_log, limit, 300, 12) {
+                violation = Some(format!(
+                    "approved without asking: {} msat within the window [{}, {}+{}), the limit is {} msat",
+                    sum, t0, t0, len, limit
+                ));
+                break;
+            }
+        }
+        emit("ACASE", json!({"id": case, "limit": limit, "ops": jops, "violation": violation}));
+    }
+    emit("STATS", json!({"kind": "approver", "approved_without_prompt": n_auto, "prompted": n_prompted, "overlapping_pairs": n_overlap}));
+}
+
 fn main() {
     let argv: Vec<String> = std::env::args().collect();
     let args = parse_args(&argv[2..]);
     match argv[1].as_str() {
         "bare" => bare(&args),
         "node" => node(&args),
+        "approver" => approver(&args),
         other => panic!("unknown sub-domain {}", other),
     }
 }
